@@ -407,7 +407,7 @@ pub fn expect_op(cx: &Ctx, pre: &Snap, op: &Op, key_pks: &[Vec<u8>]) -> Expect {
             }
             finish(cx, p, None, pre.seq, c, vec![Ret::Unit])
         }
-        Op::Redecode | Op::CloneSwap | Op::Reparse { .. } | Op::Reserde => Expect::MustOk(Effect { pairs: p0, seq: pre.seq, rets: vec![Ret::Unit], remins: None, size: pre.enc.len() }),
+        Op::Redecode | Op::CloneSwap | Op::Reparse { .. } | Op::Reserde | Op::CloneFrom => Expect::MustOk(Effect { pairs: p0, seq: pre.seq, rets: vec![Ret::Unit], remins: None, size: pre.enc.len() }),
     }
 }
 
